@@ -2,25 +2,26 @@
 """usage: seedsave.py <Cxx> <name> <needs...text> -- copies /tmp/seed_<Cxx>/SEED into /verif/seeded/<Cxx>-<name>/
 and writes meta.json; detection results are appended by seedrun (tools/seedrun.sh)."""
 import json, os, shutil, subprocess, sys
+PREFIX = os.environ.get("SEED_PREFIX", "/tmp/seed")
 pid, name, needs = sys.argv[1], sys.argv[2], sys.argv[3]
 caught = sys.argv[4:] 
-src = "/tmp/seed_%s/SEED" % pid
+src = "%s_%s/SEED" % (PREFIX, pid)
 dst = "/verif/seeded/%s-%s" % (pid, name)
 os.makedirs(dst, exist_ok=True)
 for f in os.listdir(src):
     if os.path.isfile(os.path.join(src, f)):
         shutil.copy(os.path.join(src, f), os.path.join(dst, f))
 # regenerate the patch from the worktree to be sure it matches what was tested
-patch = subprocess.run(["git", "-C", "/tmp/seed_%s" % pid, "diff", "--", "odata_query"], capture_output=True, text=True).stdout
+patch = subprocess.run(["git", "-C", "%s_%s" % (PREFIX, pid), "diff", "--", "odata_query"], capture_output=True, text=True).stdout
 open(os.path.join(dst, "patch.diff"), "w").write(patch)
-base = subprocess.run(["git", "-C", "/tmp/seed_%s" % pid, "rev-parse", "--short", "HEAD"], capture_output=True, text=True).stdout.strip()
+base = subprocess.run(["git", "-C", "%s_%s" % (PREFIX, pid), "rev-parse", "--short", "HEAD"], capture_output=True, text=True).stdout.strip()
 meta = {
     "property": pid, "name": name, "source": "independent sub-agent given only the property text and a scratch worktree",
     "repo_base_commit": base,
     "needs_to_manifest": needs,
     "confirmed": {"baseline_with_change": "648 passed, 10 xfailed, 4 errors",
                   "demo_with_change": "FAIL", "demo_without_change": "PASS",
-                  "how": "tools/seedcheck.sh %s (scratch worktree /tmp/seed_%s, removed afterwards)" % (pid, pid)},
+                  "how": "tools/seedcheck.sh %s (scratch worktree %s_%s, removed afterwards)" % (pid, PREFIX, pid)},
     "caught_by": caught,
 }
 json.dump(meta, open(os.path.join(dst, "meta.json"), "w"), indent=1)
